@@ -116,3 +116,20 @@ Theorem C09_independent_decoder : forall compress decompress c,
   exists nodes, decode_file decompress (vs_bytes s) = Done (m, es, nodes).
 Proof. exact decode_written. Qed.
 Print Assumptions C09_independent_decoder.
+
+(* ================= a certified validator =================
+   StoreCheck.store_wf is the executable check the correspondence driver evaluates on the nodes the
+   independent decoder loads from EVERY file the implementation writes (and on the version-1 files of
+   the C10 scenario).  It is sound: when the decode succeeds and the check returns true, the file is a
+   well-formed store whose content is the decoded entries — so C02/C03/C04/C05/C16 apply to those very
+   bytes, whoever wrote them. *)
+From Grenad.model Require Import StoreCheck.
+From Grenad.proofs Require Import StoreCheckProofs.
+
+Theorem C09_store_check_sound : forall decompress file m es nodes,
+  decode_file decompress file = Done (m, es, nodes) ->
+  store_wf nodes (m_root m) (m_levels m) = true ->
+  wf_store (load_block decompress file (m_codec m)) (m_root m) (m_levels m) (bs_of nodes) /\
+  content (m_root m) (m_levels m) (bs_of nodes) = es.
+Proof. exact decoded_store_certified. Qed.
+Print Assumptions C09_store_check_sound.
